@@ -20,6 +20,12 @@ RP == [t |-> "panic", v |-> 0]
 InsertAt(xs, i, v) == SubSeq(xs, 1, i) \o <<v>> \o SubSeq(xs, i + 1, Len(xs))     \* i: 0-based position
 RemoveAt(xs, i) == SubSeq(xs, 1, i) \o SubSeq(xs, i + 2, Len(xs))
 
+\* ascending order (insertion sort)
+RECURSIVE AscSeq(_)
+AscSeq(xs) == IF xs = <<>> THEN <<>>
+               ELSE LET m == CHOOSE i \in 1 .. Len(xs) : \A j \in 1 .. Len(xs) : xs[i] <= xs[j] IN
+                    <<xs[m]>> \o AscSeq(RemoveAt(xs, m - 1))
+
 \* mem: container id -> contents.  Returns [mem, res]
 Apply(mem, op) ==
     LET xs == mem[op.c] IN
@@ -38,6 +44,8 @@ Apply(mem, op) ==
              IF H = {} THEN [mem |-> mem, res |-> RN]
              ELSE LET i == CHOOSE i \in H : \A j \in H : i <= j IN
                   [mem |-> [mem EXCEPT ![op.c] = RemoveAt(xs, i - 1)], res |-> RI(op.v)])
+      [] op.k = "sort"   -> [mem |-> [mem EXCEPT ![op.c] = AscSeq(xs)], res |-> RN]
+      [] op.k = "fill"   -> [mem |-> [mem EXCEPT ![op.c] = [i \in 1 .. Len(xs) |-> op.v]], res |-> RN]
       [] op.k = "extend" -> [mem |-> [mem EXCEPT ![op.c] = xs \o mem[op.d]], res |-> RN]
       [] op.k = "swap"   -> [mem |-> [mem EXCEPT ![op.c] = mem[op.d], ![op.d] = xs], res |-> RN]
 
